@@ -104,6 +104,7 @@ struct World {
     virtual double sim_seconds_stat() const { return -1; }          // index of a counter holding simulated ms, or -1
 };
 
+extern int g_tier;   // 0 quick, 1 thorough (worlds draw longer plans in the thorough tier)
 int sim_main(int argc, char **argv, World &w);
 
 // ---------------------------------------------------------------- mini json
